@@ -132,12 +132,12 @@ func (k Keeper) UpdatePriceList(ctx sdk.Context, id, scriptID, rate, twaBatch ui
 }
 
 func (k Keeper) CalculateTwa(ctx sdk.Context, twa types.TimeWeightedAverage, twaBatch uint64) uint64 {
-	var sum uint64
+	sum := sdk.ZeroInt()
 	oldTwa := twa.Twa
 	for i := 0; i < int(twaBatch); i++ {
-		sum = sum + twa.PriceValue[i]
+		sum = sum.Add(sdk.NewIntFromUint64(twa.PriceValue[i]))
 	}
-	twa.Twa = sum / twaBatch
+	twa.Twa = sum.Quo(sdk.NewIntFromUint64(twaBatch)).Uint64()
 
 	if oldTwa != twa.Twa {
 		ctx.EventManager().EmitEvents(sdk.Events{
